@@ -84,6 +84,18 @@ func ruleP3(r *Run) {
 		var regRecv string // the table the entry was registered in (receiver of the register call)
 		var badExit ast.Node
 		w := &Walk{Info: info}
+		// bool locals that hold the result of a conditional withdrawal
+		withdrawVar := map[types.Object]*ast.CallExpr{}
+		ast.Inspect(fd.Body, func(n ast.Node) bool {
+			if as, ok := n.(*ast.AssignStmt); ok && len(as.Lhs) == 1 && len(as.Rhs) == 1 {
+				if c, ok := ast.Unparen(as.Rhs[0]).(*ast.CallExpr); ok && methodName(c) == "RemoveCb" {
+					if o := identObj(info, as.Lhs[0]); o != nil {
+						withdrawVar[o] = c
+					}
+				}
+			}
+			return true
+		})
 		isChanArg := func(e ast.Expr) types.Object {
 			if o := identObj(info, e); o != nil {
 				if _, ok := o.Type().Underlying().(*types.Chan); ok {
@@ -129,6 +141,12 @@ func ruleP3(r *Run) {
 		w.Branch = func(w *Walk, ps PState, cond ast.Expr, val bool) (PState, bool) {
 			st := ps.(*p3State)
 			call, ok := ast.Unparen(cond).(*ast.CallExpr)
+			if !ok {
+				// withdrawn := table.RemoveCb(..); if !withdrawn { .. }
+				if o := identObj(info, cond); o != nil && withdrawVar[o] != nil {
+					call, ok = withdrawVar[o], true
+				}
+			}
 			if !ok || methodName(call) != "RemoveCb" || recvFieldName(info, call) != regRecv || !st.reg || len(call.Args) != 2 {
 				return ps, true
 			}
@@ -680,6 +698,61 @@ func ruleP2(r *Run) {
 			}
 			return true
 		})
+		// the same through a counter helper of the balancer: addActive(index, +1); defer addActive(index, -1)
+		// where the helper does actives[param] += delta between Lock and Unlock
+		if !incPos.IsValid() {
+			isCounterHelper := func(call *ast.CallExpr) (idxArg ast.Expr, delta int64, locked, ok bool) {
+				d, cpkg := p.calleeDecl(info, call)
+				if d == nil || len(call.Args) != 2 {
+					return nil, 0, false, false
+				}
+				ci := cpkg.TypesInfo
+				params := paramsOf(ci, d.Type)
+				if len(params) != 2 || params[0] == nil || params[1] == nil {
+					return nil, 0, false, false
+				}
+				adds := false
+				ast.Inspect(d.Body, func(m ast.Node) bool {
+					if as, isA := m.(*ast.AssignStmt); isA && as.Tok == token.ADD_ASSIGN && len(as.Lhs) == 1 && len(as.Rhs) == 1 {
+						if ie, isI := ast.Unparen(as.Lhs[0]).(*ast.IndexExpr); isI {
+							if fv := fieldOf(ci, ie.X); fv != nil && fv.Name() == "actives" && identObj(ci, ie.Index) == types.Object(params[0]) && identObj(ci, as.Rhs[0]) == types.Object(params[1]) {
+								adds = true
+							}
+						}
+					}
+					if c, isC := m.(*ast.CallExpr); isC {
+						if mv, op := lockOp(ci, c); mv != nil && op == "Lock" {
+							locked = true
+						}
+					}
+					return true
+				})
+				if !adds {
+					return nil, 0, false, false
+				}
+				dv, isConst := intConst(info, call.Args[1])
+				if !isConst {
+					return nil, 0, false, false
+				}
+				return call.Args[0], dv, locked, true
+			}
+			ast.Inspect(fd.Body, func(n ast.Node) bool {
+				switch x := n.(type) {
+				case *ast.ExprStmt:
+					if c, isC := x.X.(*ast.CallExpr); isC {
+						if ia, dv, _, ok := isCounterHelper(c); ok && dv == 1 && !incPos.IsValid() {
+							incPos, incIdx = c.Pos(), identObj(info, ia)
+						}
+					}
+				case *ast.DeferStmt:
+					if ia, dv, locked, ok := isCounterHelper(x.Call); ok && dv == -1 {
+						decDeferPos, decIdx = x.Pos(), identObj(info, ia)
+						decUnderLock = locked
+					}
+				}
+				return true
+			})
+		}
 		switch {
 		case !incPos.IsValid() || !nextPos.IsValid():
 			r.Undec(key, fd.Pos(), "increment or downstream call not found")
